@@ -1,51 +1,130 @@
 /-
-  C18 — line widening and splitting partition a span into whole source lines.
-  INTERIM file: the iterator-length clause is proved here for every iterator
-  state; the widen/split refinement theorems (`C18_widen`, `C18_split`,
-  `C18_rejoin`) are being added.  Until then those clauses are carried by the
-  `lines` correspondence family + oracle (exhaustive small texts) and are
-  listed as partial in the evidence.
+  C18 — widening and splitting partition a span into whole lines.
+
+  English: take any text, any line-ending style, any tab width ≥ 1 and character
+  widths, and any span whose two ends are aligned character boundaries of the
+  text (not between the CR and the LF of a CRLF ending) carrying their canonical
+  positions.  Then
+  * `Span::widen_to_line` returns the span from the start of the line holding
+    the span's start to the end of the line holding its end (`C18_widen`; the
+    `is_full` shortcut agrees with that), and that result starts at a line
+    start, ends at a line end, adds no line ending on either side and contains
+    the original span (`C18_widen_minimal`);
+  * `Span::split_lines` yields exactly one piece per line under the span, in
+    order, each piece covering that line and nothing else, `len()` always equals
+    the number of pieces still to come, the `.expect` in `next` is never reached
+    (`C18_split`), and the pieces are the lines of the text under the span: no
+    piece contains a line ending and joining them with the line ending gives the
+    text back (`C18_rejoin`).
+
+  Lean: the model (`TephraModel.Span`: `Span.widenToLine`, `SplitLines`) against
+  `Spec.widenSpec` / `Spec.splitSpec`, which are written with the forward line
+  cutter `Spec.linesOf` and canonical positions `Spec.canon` only.  A span is
+  given as `t = a ++ mid ++ z`.  Unbounded in the text; `fuel` only bounds the
+  number of `next()` calls the collector makes.
 -/
-import TephraModel.Fam.Lines
+import TephraProofs.Lines
 
 namespace Tephra.Props
-open Tephra
+open Tephra Tephra.Spec Tephra.LinesPf
 
-/-- "The iterator's reported length always equals the number of pieces it will
-still yield", one step: whenever `next` yields a piece the reported length drops
-by exactly one, and when it yields nothing the reported length is zero.  Holds
-for every iterator state (no canonicity needed) in which `next` does not panic. -/
-theorem C18_len_step (it it' : SplitLines) (r : Option Span) (h : it.next = .ok (r, it')) :
-    (r = none → it.len = 0 ∧ it'.len = 0) ∧
-    (r.isSome → it.stop.line = it'.stop.line ∧ it.start.line ≤ it.stop.line ∧
-        (it'.start.line ≤ it'.stop.line + 1 → it.len = it'.len + 1 ∨ it'.start.line ≠ it.start.line + 1)) := by
-  unfold SplitLines.next at h
-  split at h
-  · rename_i hgt
-    simp at h; obtain ⟨rfl, rfl⟩ := h
-    simp [SplitLines.len]; omega
-  · split at h
-    · rename_i hle heq
-      simp at h; obtain ⟨rfl, rfl⟩ := h
-      simp [SplitLines.len]; omega
-    · rename_i hle hne
-      cases h1 : it.src.lineEndPosition it.start with
-      | panic => simp [h1, bind, Res.bind] at h
-      | ok e =>
-        cases h2 : it.src.nextPosition e with
-        | panic => simp [h1, h2, bind, Res.bind] at h
-        | ok n =>
-          cases n with
-          | none => simp [h1, h2, bind, Res.bind] at h
-          | some q =>
-            simp [h1, h2, bind, Res.bind] at h
-            obtain ⟨rfl, rfl⟩ := h
-            simp [SplitLines.len]
-            omega
+/-- `widen_to_line` is the spec's widening. -/
+theorem C18_widen (m : Metrics) (_htab : 1 ≤ m.tab) (a mid z : Text)
+    (hwf : Text.WF (a ++ mid ++ z))
+    (ha1 : aligned m a (mid ++ z) = true) (ha2 : aligned m (a ++ mid) z = true) :
+    let src : Source := ⟨a ++ mid ++ z, m, Pos.zero⟩
+    let x : Span := ⟨canon m a, canon m (a ++ mid)⟩
+    x.widenToLine src = .ok (widenSpec m a mid z) :=
+  widen_correct m a mid z hwf ha1 ha2
 
-/-- Non-vacuity: a two-line span on "a\nb". -/
+/-- `split_lines`, observed as (`len()` before each `next()`, piece) plus the final `len()`:
+one piece per line of the text under the span, the reported length counts the pieces still to
+come, no panic. -/
+theorem C18_split (m : Metrics) (_htab : 1 ≤ m.tab) (a mid z : Text)
+    (hwf : Text.WF (a ++ mid ++ z))
+    (ha1 : aligned m a (mid ++ z) = true) (ha2 : aligned m (a ++ mid) z = true)
+    (fuel : Nat) (hfuel : (linesOf m mid).length + 1 ≤ fuel) :
+    let src : Source := ⟨a ++ mid ++ z, m, Pos.zero⟩
+    let x : Span := ⟨canon m a, canon m (a ++ mid)⟩
+    (SplitLines.ofSpan x src).collect fuel = .ok (splitSpec m a mid z, 0) :=
+  split_correct m a mid z hwf ha1 ha2 fuel hfuel
+
+/-- The family observation (what the differential driver compares) equals the spec's. -/
+theorem C18_family (m : Metrics) (_htab : 1 ≤ m.tab) (a mid z : Text)
+    (hwf : Text.WF (a ++ mid ++ z))
+    (ha1 : aligned m a (mid ++ z) = true) (ha2 : aligned m (a ++ mid) z = true) :
+    Fam.Lines.model m (a ++ mid ++ z) ⟨canon m a, canon m (a ++ mid)⟩ =
+      Fam.Lines.ofSpec (widenSpec m a mid z) (splitSpec m a mid z) := by
+  have hlen : (linesOf m mid).length + 1 ≤ bytes (a ++ mid ++ z) + 4 := by
+    have := linesOf_length_le_bytes m mid (Text.WF_append.mp (Text.WF_append.mp hwf).1).2
+    simp only [bytes_append]; omega
+  simp only [Fam.Lines.model, Fam.Lines.ofSpec, widen_correct m a mid z hwf ha1 ha2,
+    split_correct m a mid z hwf ha1 ha2 _ hlen]
+
+/-- About the spec: the pieces of `splitSpec` are the lines of `mid`, in order; piece `i`
+starts where line `i` starts in `t` and covers exactly that line; no line contains a line
+ending; joining the lines with the line ending gives `mid` back (on code points). -/
+theorem C18_rejoin (m : Metrics) (a mid z : Text) :
+    let t := a ++ mid ++ z
+    let L := linesOf m mid
+    (splitSpec m a mid z).length = L.length ∧
+    (∀ i l, L[i]? = some l →
+      let off := a.length + ((L.take i).map (fun l => l.length + lbLen m)).sum
+      (splitSpec m a mid z)[i]? =
+          some (L.length - i, ⟨canon m (t.take off), canon m (t.take (off + l.length))⟩) ∧
+        (t.drop off).take l.length = l) ∧
+    (∀ l ∈ L, ∀ k, breakAt m (l.drop k) = none) ∧
+    List.intercalate (lbCodes m) (L.map (·.map (·.code))) = mid.map (·.code) := by
+  refine ⟨piecesFrom_length m _ _ _, ?_, ?_, lines_join_codes m mid⟩
+  · intro i l hl
+    refine ⟨piecesFrom_getElem? m _ _ a.length i l hl, ?_⟩
+    have h := lines_at_offset m (linesOf m mid) mid i l rfl hl
+    have h2 := take_drop_append_of_eq (z := z) h
+    show ((a ++ mid ++ z).drop (a.length + lineOffset (lbLen m) (linesOf m mid) i)).take l.length = l
+    rw [List.append_assoc, ← List.drop_drop]
+    simpa using h2
+  · intro l hl k
+    exact noBreak_drop (linesOf_noBreak m mid l hl) k
+
+/-- About the spec: the widened span starts at a line start (`a0` is empty or ends with a
+line ending), ends at a line end (`rem` is empty or starts with a line ending), adds only
+text without line endings (`cl`, `cz`), and contains the original span. -/
+theorem C18_widen_minimal (m : Metrics) (a mid z : Text) :
+    ∃ a0 cl cz rem, a = a0 ++ cl ∧ z = cz ++ rem ∧
+      widenSpec m a mid z = ⟨canon m a0, canon m (a ++ mid ++ cz)⟩ ∧
+      (a0 = [] ∨ ∃ u B, a0 = u ++ B ∧ B.map (·.code) = lbCodes m) ∧
+      (rem = [] ∨ (breakAt m rem).isSome) ∧
+      (∀ k, breakAt m (cl.drop k) = none) ∧ (∀ k, breakAt m (cz.drop k) = none) ∧
+      (widenSpec m a mid z).s.byte ≤ (canon m a).byte ∧
+      (canon m (a ++ mid)).byte ≤ (widenSpec m a mid z).e.byte := by
+  obtain ⟨a0, cl, I, h1, _, _, h4, h5, h6, h7, _⟩ := last_split m a
+  obtain ⟨rem, hr, hcase⟩ := curLineSuf_prefix m z
+  have hw : widenSpec m a mid z = ⟨canon m a0, canon m (a ++ mid ++ curLineSuf m z)⟩ := by
+    simp only [widenSpec, h6, h7]
+  refine ⟨a0, cl, curLineSuf m z, rem, h1, hr, hw, h4, ?_, noBreak_drop h5,
+    noBreak_drop (curLineSuf_noBreak m z), ?_, ?_⟩
+  · rcases hcase with ⟨h, _⟩ | ⟨rest, hb, _⟩
+    · exact Or.inl h
+    · exact Or.inr (by rw [hb]; rfl)
+  · rw [hw]; simp only [canon_byte]; rw [h1]; simp
+  · rw [hw]; simp
+
+/-- Non-vacuity: a CRLF text `ab⏎c` cut as `a | b⏎c |` satisfies the hypotheses, the span
+covers two lines, and the spec's pieces are `[1,2]` and `[4,5]` (bytes). -/
 example :
-    let it : SplitLines := ⟨⟨[⟨97,1,1⟩, ⟨10,1,0⟩, ⟨98,1,1⟩], ⟨.lf, 4⟩, Pos.zero⟩, ⟨0,0,0⟩, ⟨3,1,1⟩⟩
-    it.len = 2 := by decide
+    let m : Metrics := ⟨.crlf, 4⟩
+    let a : Text := [⟨97, 1, 1⟩]
+    let mid : Text := [⟨98, 1, 1⟩, ⟨13, 1, 0⟩, ⟨10, 1, 0⟩, ⟨99, 1, 1⟩]
+    let z : Text := []
+    1 ≤ m.tab ∧ Text.WF (a ++ mid ++ z) ∧ aligned m a (mid ++ z) = true ∧
+      aligned m (a ++ mid) z = true ∧
+      splitSpec m a mid z = [(2, ⟨⟨1, 0, 1⟩, ⟨2, 0, 2⟩⟩), (1, ⟨⟨4, 1, 0⟩, ⟨5, 1, 1⟩⟩)] ∧
+      widenSpec m a mid z = ⟨⟨0, 0, 0⟩, ⟨5, 1, 1⟩⟩ := by
+  refine ⟨by decide, ?_, by decide, by decide, ?_, ?_⟩
+  · intro c hc; simp at hc; rcases hc with rfl | rfl | rfl | rfl | rfl <;> decide
+  · simp [splitSpec, piecesFrom, canon, canonFrom, linesOf, breakAt, lbCodes, lbLen, stripCodes,
+      colWidth, bytes, Pos.zero]
+  · simp [widenSpec, curLinePre, curLineSuf, canon, canonFrom, linesOf, breakAt, lbCodes, stripCodes,
+      colWidth, bytes, Pos.zero]
 
 end Tephra.Props
